@@ -61,7 +61,7 @@ func (g *generator) generateParallel(
 	}
 	// Annotate with line directives after we're done generating code.
 	// Get the expression's End position and find the associated line.
-	endPos := g.fset.Position(p.End())
+	endPos := g.fset.PositionFor(p.End(), false /* adjusted */)
 	// -1 because this is a line above the closing }().
 	fmt.Fprintf(w, "/*line %v:%d*/", filepath.Base(p.PosInfo.File), endPos.Line-1)
 	if _, err := io.WriteString(w, "}()"); err != nil {
